@@ -70,6 +70,20 @@ func copySource(info *types.Info, body ast.Node, o types.Object) types.Object {
 	return o
 }
 
+// mentionsKeyLists: the body reads the key-list configuration (a field named FilterKey...).
+func mentionsKeyLists(info *types.Info, body ast.Node) bool {
+	hit := false
+	ast.Inspect(body, func(n ast.Node) bool {
+		if e, ok := n.(ast.Expr); ok {
+			if v := core.FieldOf(info, e); v != nil && strings.HasPrefix(v.Name(), "FilterKey") {
+				hit = true
+			}
+		}
+		return true
+	})
+	return hit
+}
+
 // polarity reduces a boolean expression to one call of target: e <=> call
 // (sense true) or e <=> !call (sense false).
 func polarity(info *types.Info, root ast.Node, e ast.Expr, target *types.Func, depth int) (call *ast.CallExpr, sense, ok bool) {
@@ -315,7 +329,24 @@ func wiring(c *core.Ctx, it *interp, wrap, fkey *core.Fn, entries []entry) {
 	if gate, _ := noLists.unreachableUnder(wg, gp); gate && lists >= 2 {
 		c.Okf("R4.verdict", "HandleFilterKeyWithCommand/no-filter-unchanged", wrap.Decl.Pos(), "with neither key list configured the original vector is returned, not rejected")
 	} else {
-		c.Undecidedf("R4.verdict", "HandleFilterKeyWithCommand/no-filter-unchanged", wrap.Decl.Pos(), "cannot see the early return for an unconfigured key filter")
+		// positive evidence for the opposite: with both lists empty, a command of the table
+		// and a non-empty argument vector, a way to the key interpreter on which every
+		// branch is decided by exactly these assumptions - and neither the interpreter nor
+		// the function holding its key loop looks at the list configuration itself. The
+		// interpreter then runs although no key filter is configured, and FilterKey's
+		// list-independent clauses (the reserved checkpoint keys) rewrite or drop commands.
+		var w []string
+		if lookup != nil && len(lookup.Lhs) == 2 && !mentionsKeyLists(it.info, it.fn.Decl.Body) && !mentionsKeyLists(it.info, it.keyFn.Decl.Body) {
+			open := &assumption{c: c, info: winfo, pkg: wrap.Obj.Pkg(), body: wrap.Decl.Body,
+				bools: map[types.Object]bool{objOf(winfo, lookup.Lhs[1]): true}, lenOf: listLen(nil, 0)}
+			w = open.decidedPath(wg, func(n ast.Node) bool { return n == gp.Node() }, nil)
+		}
+		if w != nil {
+			c.Check("R4.verdict", "HandleFilterKeyWithCommand/no-filter-unchanged", wrap.Decl.Pos(), false,
+				"with neither key list configured a command of the table is still handed to the key interpreter (there is no early return for the unconfigured filter on this way): FilterKey rejects the reserved keys whatever the lists say, so with NO key filter configured commands are rewritten, and dropped when their only key is such a key, instead of being forwarded unchanged", w...)
+		} else {
+			c.Undecidedf("R4.verdict", "HandleFilterKeyWithCommand/no-filter-unchanged", wrap.Decl.Pos(), "cannot see the early return for an unconfigured key filter")
+		}
 	}
 	// one list configured (the other empty), command known, argv non-empty: the
 	// interpreter must run; a path on which every condition is decided by that
